@@ -108,6 +108,7 @@ class Machine:
         self._cue_time = 0
         self._call_stack.reset(self._constants)
         self._vm_math.reset()
+        self._vm_io.reset()
         self._keep_running = True
         self._enable_pause = True
 
@@ -138,6 +139,12 @@ class Machine:
         except Exception as ex:
             logging.error("Machine stopped due to {} at instruction {}"
                           .format(ex, self._reg.pc))
+            # The script is over all the same: values collected for a print
+            # that never happened are dropped, and the output sink is told,
+            # so that the next script does not start with a stray separator.
+            self._clock.stop()
+            self._vm_io.reset()
+            self._vm_io.flush()
 
     def stop(self) -> None:
         self._keep_running = False
